@@ -156,11 +156,8 @@ def alternatives(T, tvs, exotic=True):
                             lambda ch, starts=starts, stops=stops: {
                                 "class": "ListArray64", "starts": np.array(starts, np.int64),
                                 "stops": np.array(stops, np.int64), "content": ch[0]}))
-        if n > 0 and all(len(x) == len(tvs[0]) for x in tvs):
-            size = len(tvs[0])
-            alts.append(Alt("RegularArray-as-var", 1, [(Tc, flat)],
-                            lambda ch, size=size: {"class": "RegularArray", "size": size, "zeros_length": n,
-                                                   "content": ch[0]}))
+        # (a RegularArray is NOT an encoding of a var-type value: it changes the type, and out-of-range is
+        # decided by the type for regular dimensions)
         _add_indexed(alts, T, tvs, jc)
         return alts
     if k == "reg":
